@@ -11,3 +11,6 @@ import MicroHttp.Props.Tables
 #print axioms MicroHttp.C01.sched_refines
 #print axioms MicroHttp.Tables.no_shared_state
 #print axioms MicroHttp.Tables.no_interior_mutability
+#print axioms MicroHttp.Tables.server_set_limit
+#print axioms MicroHttp.Tables.conn_set_limit
+#print axioms MicroHttp.Tables.accept_configures_limit
